@@ -616,7 +616,7 @@ func E7MapOrder(c *core.Ctx, r *core.Report) {
 			})
 		}
 	}
-	r.Floor("E7.map-ranges", 15)
+	r.Floor("E7.map-ranges", 10)
 }
 
 // classifyMapRange decides the syntactic classes (a)–(c).
